@@ -236,7 +236,11 @@ impl Exec {
             Ev::ForwardDirect { .. } => { if ok { out.monitor_fail("C10", "ForwardFees was accepted from an address that is not the fee distributor", replay.clone()); } }
             Ev::Aggregate { .. } | Ev::Collect { .. } if ok => {
                 if after.dao != before.dao || after.dist != before.dist { out.monitor_fail("C10", "collecting / aggregating paid the DAO or the distributor", replay.clone()); }
-                for a in 1..4 { if matches!(e, Ev::Aggregate { .. }) && after.coll[a] != before.coll[a] && after.coll[a] != 0 { out.monitor_fail("C10", "an asset was neither swapped entirely nor left untouched", replay.clone()); } }
+                for a in 1..4 { if matches!(e, Ev::Aggregate { .. }) {
+                    if after.coll[a] != before.coll[a] && after.coll[a] != 0 { out.monitor_fail("C10", "an asset was neither swapped entirely nor left untouched", replay.clone()); }
+                    if after.coll[a] != before.coll[a] && before.coll[a] <= MINAGG { out.monitor_fail("C10", "a balance not above MINIMUM_AGGREGABLE_BALANCE was swapped", replay.clone()); }
+                    if after.coll[a] != before.coll[a] && self.setup.routes[a - 1] != 1 { out.monitor_fail("C10", "an asset without a usable route left the collector", replay.clone()); }
+                } }
             }
             Ev::NewEpoch { .. } if ok => {
                 self.n_epochs += 1;
